@@ -1,5 +1,7 @@
 import PercevalModel.Proto
 import PercevalModel.Model.C02
+import PercevalModel.Model.C02Sess
+import PercevalModel.Model.C02SessK
 import PercevalModel.Lemmas.C02Perm
 import PercevalModel.Found.Memo
 import PercevalModel.Found.Perm
@@ -37,10 +39,53 @@ def stepOfJson (M : ℕ) (j : Json) : Except String (Step GQ) := do
     if r0 + k > M then throw "component outside the circuit"
     return .block ⟨k, r0, matOfRows k rows⟩
 
+/-- one operation of a backend session: `{"o":"circ","m":3}`, `{"o":"input","s":[…]}`,
+`{"o":"mask","masks":[[…]],"n":null|k}`, `{"o":"clear"}`, `{"o":"bulk","q":"allprob"|"dist"|"evolve","s":null|[…]}` -/
+def sessOpOfJson (j : Json) : Except String Sess.OpK := do
+  let o ← strOf j "o"
+  match o with
+  | "circ" => return .setCircuit (← natOf j "m")
+  | "input" => return .setInput (← natList (← j.getObjVal? "s"))
+  | "mask" =>
+    let masks ← (← arrOf j "masks").toList.mapM maskOfJson
+    let n ← match ← j.getObjVal? "n" with
+      | .null => pure none
+      | x => do pure (some (← x.getNat?))
+    return .setMask masks n
+  | "clear" => return .clearMask
+  | "bulk" =>
+    let q ← strOf j "q"
+    match q with
+    | "allprob" =>
+      match ← j.getObjVal? "s" with
+      | .null => return .bulk (.allProb none)
+      | x => return .bulk (.allProb (some (← natList x)))
+    | "dist" => return .bulk .dist
+    | "evolve" => return .bulk .evolve
+    | _ => throw "unknown query"
+  | _ => throw "unknown session op"
+
+def sessOutJson : Except String (Option Sess.Ans) → Json
+  | .ok none => Json.mkObj [("ok", Json.null)]
+  | .ok (some l) => Json.mkObj [("ok", Json.mkObj [("labels", statesJson (l.map Prod.fst)),
+      ("values", statesJson (l.map Prod.snd))])]
+  | .error e => Json.mkObj [("err", .str e)]
+
 def handle (j : Json) : Json :=
   match (do
     let op ← strOf j "op"
     match op with
+    | "session" =>
+      -- the configuration glue of AStrongSimulationBackend and its SLOS / SLAP overrides: one answer per
+      -- operation, stops at the first exception
+      let ops ← (← arrOf j "ops").toList.mapM sessOpOfJson
+      let kind ← strOf j "kind"
+      let outs ← match kind with
+        | "base" => pure (Sess.runK Sess.stepB {} ops)
+        | "slos" => pure (Sess.runK Sess.stepS {} ops)
+        | "slap" => pure (Sess.runK Sess.stepP {} ops)
+        | _ => throw "unknown kind"
+      return Json.mkObj [("outs", Json.arr (outs.map sessOutJson).toArray)]
     | "mps2" =>
       -- MPSBackend._transition_matrix_2_mode: the double sum, all (n1, n2, m1, m2) < d = nmax + 1
       let U ← squareOf (← j.getObjVal? "U") 2
